@@ -112,3 +112,8 @@ CHECKS.update({
     "C28": ("6/C28", "Every starting schema {fresh; schema_migrations recorded up to k=1..N; legacy PRAGMA user_version=k without the bookkeeping table} x 1..3 consecutive run_migrations() calls x {caller commits / only closes} x {connection reused / new connection per run} on real DB files with the repository's migration files; normalized sqlite_master + table_info, schema_migrations rows and a pre-existing data row, read through a separate connection after every run, compared with a freshly migrated database.",
             "The space is finite and enumerated completely (108 histories for 4 migrations).", ENUM_TECH),
 })
+
+CHECKS.update({
+    "C34": ("6/C34", "Release triples over the component grid {0,1,2,10} (quick) / {0,1,2,9,10,11,99,100} (thorough) x pre-release {none, a/b/rc x {0,1,10}}: PEP 440 -> semver -> PEP 440 over 3-7 input spellings per version and semver -> PEP 440 -> semver; detect_change_type on ALL ordered pairs of the grid (PEP 440 spelling; on the 4-value grid also semver/semver and both mixed spellings = 1.6M calls quick, 27M thorough) compared with packaging.Version ordering and the first differing release component.",
+            "Pairs where only the pre-release part grew are evaluated but not judged (the statement defines no answer).", ENUM_TECH),
+})
